@@ -90,8 +90,9 @@ Theorem C11_u32_key_and_f32_edge_agree :
 Proof. exact u32_key_and_f32_edge_agree. Qed.
 Print Assumptions C11_u32_key_and_f32_edge_agree.
 
-Theorem C11_ptrptr_null_refuted :
-  sonic_unmarshal h1 Jit opts_std (TPtr (TPtr TUnm)) (b "null") VNil = Err /\
+(* repaired (fac5479) *)
+Theorem C11_ptrptr_null_agree :
+  sonic_unmarshal h1 Jit opts_std (TPtr (TPtr TUnm)) (b "null") VNil = Ok VNil /\
   sonic_unmarshal h1 Opt opts_std (TPtr (TPtr TUnm)) (b "null") VNil = Ok VNil.
-Proof. exact ptrptr_null_refuted_11. Qed.
-Print Assumptions C11_ptrptr_null_refuted.
+Proof. exact ptrptr_null_agree_11. Qed.
+Print Assumptions C11_ptrptr_null_agree.
